@@ -52,37 +52,41 @@ inline constexpr void convert_type_fundamental(T_To& to,
     // Some branches don't use the param
     RLBOX_UNUSED(err_msg);
 
+    // The source may be a volatile location in sandbox memory. Read it once:
+    // the range checks below and the conversion must see the same value
+    const std::remove_cv_t<T_From> from_val = from;
+
     if constexpr (is_signed_v<T_To> == is_signed_v<T_From> &&
                   sizeof(T_To) >= sizeof(T_From)) {
       // Eg: int64_t from int32_t, uint64_t from uint32_t
     } else if constexpr (is_unsigned_v<T_To> && is_unsigned_v<T_From>) {
       // Eg: uint32_t from uint64_t
-      dynamic_check(from <= numeric_limits<T_To>::max(), err_msg);
+      dynamic_check(from_val <= numeric_limits<T_To>::max(), err_msg);
     } else if constexpr (is_signed_v<T_To> && is_signed_v<T_From>) {
       // Eg: int32_t from int64_t
-      dynamic_check(from >= numeric_limits<T_To>::min(), err_msg);
-      dynamic_check(from <= numeric_limits<T_To>::max(), err_msg);
+      dynamic_check(from_val >= numeric_limits<T_To>::min(), err_msg);
+      dynamic_check(from_val <= numeric_limits<T_To>::max(), err_msg);
     } else if constexpr (is_unsigned_v<T_To> && is_signed_v<T_From>) {
       if constexpr (sizeof(T_To) < sizeof(T_From)) {
         // Eg: uint32_t from int64_t
-        dynamic_check(from >= 0, err_msg);
+        dynamic_check(from_val >= 0, err_msg);
         auto to_max = numeric_limits<T_To>::max();
-        dynamic_check(from <= static_cast<T_From>(to_max), err_msg);
+        dynamic_check(from_val <= static_cast<T_From>(to_max), err_msg);
       } else {
         // Eg: uint32_t from int32_t, uint64_t from int32_t
-        dynamic_check(from >= 0, err_msg);
+        dynamic_check(from_val >= 0, err_msg);
       }
     } else if constexpr (is_signed_v<T_To> && is_unsigned_v<T_From>) {
       if constexpr (sizeof(T_To) <= sizeof(T_From)) {
         // Eg: int32_t from uint32_t, int32_t from uint64_t
         auto to_max = numeric_limits<T_To>::max();
-        dynamic_check(from <= static_cast<T_From>(to_max), err_msg);
+        dynamic_check(from_val <= static_cast<T_From>(to_max), err_msg);
       } else {
         // Eg: int64_t from uint32_t
       }
     }
     RLBOX_VERIF_POINT("convert_type_fundamental before cast", &from, sizeof(from));
-    to = static_cast<T_To>(from);
+    to = static_cast<T_To>(from_val);
   }
   else
   {
